@@ -1,0 +1,1 @@
+//! Hooks of group 'storage' for the /verif machinery.
